@@ -99,21 +99,25 @@ class FileSystemLoader(BaseLoader):
         return TemplateSource(
             source,
             str(source_path),
-            partial(self._uptodate, source_path, mtime),
+            partial(self._uptodate, template_name, source_path, mtime),
         )
 
-    @staticmethod
-    def _uptodate(source_path: Path, mtime: float) -> bool:
+    def _uptodate(self, template_name: str, source_path: Path, mtime: float) -> bool:
         try:
+            # A file of the same name in an earlier search path takes precedence
+            # from the moment it appears.
+            if self.resolve_path(template_name) != source_path:
+                return False
             return mtime == source_path.stat().st_mtime
-        except OSError:
+        except (OSError, TemplateNotFoundError):
             # The file has gone. Loading it again will say so.
             return False
 
-    @staticmethod
-    async def _uptodate_async(source_path: Path, mtime: float) -> bool:
+    async def _uptodate_async(
+        self, template_name: str, source_path: Path, mtime: float
+    ) -> bool:
         return await asyncio.get_running_loop().run_in_executor(
-            None, FileSystemLoader._uptodate, source_path, mtime
+            None, self._uptodate, template_name, source_path, mtime
         )
 
     async def get_source_async(
@@ -129,5 +133,7 @@ class FileSystemLoader(BaseLoader):
         source_path = await loop.run_in_executor(None, self.resolve_path, template_name)
         source, mtime = await loop.run_in_executor(None, self._read, source_path)
         return TemplateSource(
-            source, str(source_path), partial(self._uptodate_async, source_path, mtime)
+            source,
+            str(source_path),
+            partial(self._uptodate_async, template_name, source_path, mtime),
         )
